@@ -267,6 +267,33 @@ def evaluate(tmp, fname, text, aux, deps):
         if cs_same is not None or after_same != after:
             return {"clause": "a later codemod of the same run needing the same package adds nothing (same package stores)", "after first": after,
                     "after second": after_same}
+    # a later codemod of the SAME run (same cached package stores) that needs ANOTHER package: the first addition is kept, the new one added once
+    if cs is not None:
+        from codemodder.dependency import DefusedXML, Security
+        other = DefusedXML if _canon(deps[0].requirement.name) == _canon(Security.requirement.name) else Security
+        on = _canon(other.requirement.name)
+        if on not in before_names:
+            mid = (root / fname).read_bytes().decode("utf-8")
+            try:
+                cs_o = None
+                for st in stores:
+                    cs_o = cs_o or DependencyManager(st, root).write([other], dry_run=False)
+            except Exception as e:      # noqa
+                return {"clause": "the run still succeeds", "observed": f"raised {type(e).__name__}: {e}", "after": mid}
+            after_o = (root / fname).read_bytes().decode("utf-8")
+            if cs_o is None:
+                if after_o != mid:
+                    return {"clause": "no changeset => manifest untouched", "after": after_o}
+            else:
+                try:
+                    _, names_o = _declared(fname, after_o)
+                except Exception as e:      # noqa
+                    return {"clause": "parse(after) ok", "observed": f"{type(e).__name__}: {e}", "after": after_o}
+                for n2 in needed + [on]:
+                    if names_o.count(n2) != 1:
+                        return {"clause": "a later codemod of the same run needing another package keeps the earlier addition and adds its own once (same package stores)",
+                                "name": n2, "count": names_o.count(n2), "after first": mid, "after second": after_o}
+                after = after_o
     # a second run adds nothing
     try:
         cs2, _ = run_once()
